@@ -17,6 +17,7 @@
 -/
 import RdfModel.Model.BlankNodes
 import RdfModel.Spec.HtmlTree
+import RdfModel.Spec.RFC3986
 import RdfModel.Model.Description
 namespace RdfModel.Html
 open RdfModel
@@ -184,5 +185,39 @@ def docIters {βJ βM βR : Type} (fm : βM → CB βJ) (fr : βR → CB βJ) (s
 def unionOf {βJ βM βR : Type} (fm : βM → CB βJ) (fr : βR → CB βJ) (scripts : List (List (DQuad βJ)))
     (md : List (Triple βM)) (rdfa : List (Triple βR)) : List (DQuad (CB βJ)) :=
   scripts.zipIdx.flatMap (fun sk => sk.1.map (DQuad.map (CB.j sk.2))) ++ md.map (asQuad fm) ++ rdfa.map (asQuad fr)
+
+end RdfModel.Html
+
+/-! ### document base: encoding/html `newDocument` / `NewDocument` + `findFirstBaseHref`
+
+  `DocumentInfo.BaseURL` = the location, unless the document has a `<base href>`: the first one in tree order,
+  taken as it is when absolute, else resolved against the location (RFC 3986 §5.2, `Spec.RFC3986.resolve`;
+  the Go code goes through iri.ParsedIRI, property C12), else — with no location — as written. -/
+namespace RdfModel.Html
+open RdfModel RdfModel.Spec.Html
+
+mutual
+/-- `findFirstBaseHref`: the href of the first `base` element that has one -/
+def baseHrefNode : Tree → Option Str
+  | .text _ => none
+  | .elem tag a ks =>
+    match (if tag == .base then a.href else none) with
+    | some h => some h
+    | none => baseHrefKids ks
+def baseHrefKids : List Tree → Option Str
+  | [] => none
+  | k :: ks =>
+    match baseHrefNode k with
+    | some h => some h
+    | none => baseHrefKids ks
+end
+
+def docBase (location : Str) (doc : Tree) : Str :=
+  match baseHrefNode doc with
+  | none => location
+  | some href =>
+    if (Spec.RFC3986.split href).scheme.isSome then href
+    else if location = [] then href
+    else Spec.RFC3986.resolve location href
 
 end RdfModel.Html
